@@ -25,8 +25,8 @@ distinct by hash of (data, operations).",
 
 fn parts(t: Tier) -> Vec<Part> {
     let (a, b) = match t {
-        Tier::Quick => (400_000, 300_000),
-        Tier::Thorough => (6_000_000, 5_000_000),
+        Tier::Quick => (1_200_000, 900_000),
+        Tier::Thorough => (12_000_000, 10_000_000),
     };
     vec![tape("reader", a, 300), tape("writer", b, 300)]
 }
